@@ -154,28 +154,48 @@ def r1_table(rep, ctx):
     ac = m.method("UnitDatabase", "AddCategory")
     ares = Resolver(m, ac)
     seen2 = {}
+    acfg = CFG(ac.node)
+
+    def excl_of(facts_, kind):
+        """what the dominating facts say about is_<kind>_exclusive (True / False), else None"""
+        for e_, v_ in facts_:
+            te_ = ares.term(e_)
+            if any(x[0] == "param" and x[2] == "is_%s_exclusive" % kind for x in alternatives(te_)) and all((x[0] == "param" and x[2] == "is_%s_exclusive" % kind) or (x[0] == "attr" and x[2] == "is_%s_exclusive" % kind) for x in alternatives(te_)):
+                return bool(v_)
+        return None
+
     for a in own_nodes(ac.node):
         if not isinstance(a, ast.Assert):
             continue
-        # (by terms: `default_value > min_value`, operator.gt(default_value, min_value) and an entry of a constant
-        # table of comparisons applied to them are the same assertion)
+        # (by terms: `default_value > min_value`, operator.gt(default_value, min_value), an entry of a constant table of
+        # comparisons applied to them, and a comparison function chosen into a local in the arms of the exclusivity
+        # flag - judged with the facts of the site where it was chosen - are the same assertion)
+        here = acfg.facts_at(acfg.node_of(a))
         tt = ares.term(a.test)
-        if not (tt[0] == "op" and tt[1] in TOPS and len(tt[2]) == 2):
-            continue
-        l = tt[2][0]
-        if not any(x[0] == "param" and x[2] == "default_value" for x in alternatives(l)) and not any(s[0] == "attr" and s[2] == "default_value" for s in walk(l)):
-            continue
-        op = TOPS[tt[1]]
-        kind = _limit_kind(tt[2][1])
-        ifs = _enclosing_ifs(a, ac.node)
-        excl = _excl_flag(ifs, kind) if kind else None
-        key = "AddCategory:%s" % norm(ast.unparse(a.test))
-        if kind is None or excl is None:
-            rep.bad("C12.R1", key, "assertion on the default value is not inside an arm of an exclusivity flag / does not compare with a limit", node=a, fn=ac)
-            continue
-        seen2[(kind, excl)] = seen2.get((kind, excl), 0) + 1
-        rep.check(op == TABLE[(kind, excl)], "C12.R1", key, "default value vs %s %s limit asserted with %r" % ("exclusive" if excl else "inclusive", kind, op),
-                  "AddCategory asserts the default value against the %s %s limit with %r, expected %r" % ("exclusive" if excl else "inclusive", kind, op, TABLE[(kind, excl)]), node=a, fn=ac)
+        cases = []
+        if tt[0] == "op" and tt[1] in TOPS and len(tt[2]) == 2:
+            cases.append((tt[1], tt[2], here))
+        elif isinstance(a.test, ast.Call) and isinstance(a.test.func, ast.Name) and len(a.test.args) == 2 and not a.test.keywords:
+            args_ = tuple(ares.term(x) for x in a.test.args)
+            for st_, t_ in ares.origins(a.test.func):
+                if t_[0] in ("opfn", "opfn-swapped") and t_[1] in TOPS and st_ is not None:
+                    cases.append((t_[1], args_ if t_[0] == "opfn" else args_[::-1], here + acfg.facts_at(acfg.node_of(st_))))
+                else:
+                    cases = []
+                    break
+        for opk, (l, r_), facts_ in cases:
+            if not any(x[0] == "param" and x[2] == "default_value" for x in alternatives(l)) and not any(s[0] == "attr" and s[2] == "default_value" for s in walk(l)):
+                continue
+            op = TOPS[opk]
+            kind = _limit_kind(r_)
+            excl = excl_of(facts_, kind) if kind else None
+            key = "AddCategory:%s" % norm(ast.unparse(a.test)) + ("" if len(cases) == 1 else ":" + op)
+            if kind is None or excl is None:
+                rep.bad("C12.R1", key, "assertion on the default value is not inside an arm of an exclusivity flag / does not compare with a limit", node=a, fn=ac)
+                continue
+            seen2[(kind, excl)] = seen2.get((kind, excl), 0) + 1
+            rep.check(op == TABLE[(kind, excl)], "C12.R1", key, "default value vs %s %s limit asserted with %r" % ("exclusive" if excl else "inclusive", kind, op),
+                      "AddCategory asserts the default value against the %s %s limit with %r, expected %r" % ("exclusive" if excl else "inclusive", kind, op, TABLE[(kind, excl)]), node=a, fn=ac)
     missing = [k for k in TABLE if seen2.get(k, 0) != 1]
     rep.check(not missing, "C12.R1", "AddCategory:all-four-cases", "each of the four cases is asserted exactly once", "AddCategory does not assert exactly once: %s" % missing, fn=ac)
 
